@@ -75,7 +75,12 @@ def gen_mgda(rng, i):
         J, klass = M.gen(rng, max_m=7, max_n=8)
     if rng.random() < 0.3:
         J = J * 10.0 ** rng.uniform(-4, 4)
-    return {"J": J.tolist(), "class": klass, "dtype": dname, "agg": {"name": "MGDA"}}
+    agg = {"name": "MGDA"}
+    if rng.random() < 0.5:
+        # the statement holds for every iteration budget >= 1 (exact line searches never increase the norm; two rows are solved by
+        # the first one): small budgets and epsilon = 0 as well as the defaults
+        agg = {"name": "MGDA", "max_iters": [1, 2, 3, 5, 10, 30][int(rng.integers(6))], "epsilon": [1e-3, 0.0][int(rng.integers(2))]}
+    return {"J": J.tolist(), "class": klass, "dtype": dname, "agg": agg}
 
 
 def check_mgda(case, ctx):
@@ -116,8 +121,10 @@ def check_mgda(case, ctx):
         ctx.violation(vio[0], case, vio[1])
     if dname == "float32":
         ctx.count("w_float32")
+    if case["agg"].get("max_iters", 100) <= 5:
+        ctx.count("w_mgda_small_iteration_budget")
     ctx.evaluated(fingerprint(case), nontrivial=M.has_conflict(J))
-    ctx.sample({"agg": "MGDA", "J": np.round(J, 4).tolist(), "dtype": dname})
+    ctx.sample({"agg": case["agg"], "J": np.round(J, 4).tolist(), "dtype": dname})
 
 
 # ---------------------------------------------------------------------------------------------------------------- Random
